@@ -5,7 +5,8 @@ of `newPackage` (derive/generate.go).
 Types are abstract: `τ` stands for go/types types up to `types.Identical` (after `types.Default`), so
 `types.Identical` is equality on `τ`. What the table needs to know about types is in `TyRel τ`:
 
-* `asg a b`  = `types.AssignableTo(a, b)` — reflexive, in general neither symmetric nor transitive;
+* `asg a b`  = `sameFunctionServes(a, b)` of derive/typesmap.go (0b79109): identical, or `b` is not an
+  interface type and `types.AssignableTo(a, b)` — reflexive, in general neither symmetric nor transitive;
 * `hint t`   = the name fragment `newName` derives from `t` when `t` is the first argument type
   (`Obj().Name()` of a named type, the printed name of the listed basic kinds, otherwise empty), as its
   list of letters (`[]rune(name)`).
@@ -300,6 +301,7 @@ inductive GTy where
   | fcons (t : GTy) (rest : GTy)
   | func                                      -- `func()`
   | iface                                     -- `interface{}`
+  | ifaceM (methods : List Name)              -- `interface{ M1(); M2() … }` (method names sorted)
   deriving DecidableEq, Repr, Inhabited
 
 namespace GTy
@@ -314,10 +316,21 @@ def hasName : GTy → Bool
   | .named _ _ _ => true
   | _ => false
 
-/-- `types.AssignableTo(a, b)` on this fragment (typed operands only): identical; or identical
-underlying types with at least one side unnamed; or `b` is the empty interface -/
+/-- the underlying type is an interface type -/
+def isInterface (t : GTy) : Bool :=
+  match t.under with
+  | .iface => true
+  | .ifaceM _ => true
+  | _ => false
+
+/-- `sameFunctionServes(a, b)` (0b79109) on this fragment (typed operands only): identical; or `b` is not
+an interface type and `types.AssignableTo(a, b)`, i.e. identical underlying types with at least one side
+unnamed. A type that merely implements an interface is NOT served by the function for the interface. -/
 def assignable (a b : GTy) : Bool :=
-  a == b || (a.under == b.under && (!a.hasName || !b.hasName)) || b.under == .iface
+  a == b || (!b.isInterface && a.under == b.under && (!a.hasName || !b.hasName))
+
+/-- the predeclared type `error`: a named type of the universe scope -/
+def error : GTy := .named 1000 (asc "error") (.ifaceM [asc "Error"])
 
 /-- basic kinds for which `newName` uses the printed type as the name fragment -/
 def hintBasics : List Name :=
